@@ -103,7 +103,10 @@ Definition start_one (st : rstate) (hs : hstate) : hstate :=
   | None => HS (hs_cfg hs) (Some (ST (mws st) (pubdecs st ++ residue_of st (h_name (hs_cfg hs))) (subdecs st)))
   end.
 
-Definition step (st : rstate) (o : op) : rstate :=
+(** [pinned = true]: the behaviour before the fix "a RunHandlers that cannot decorate the subscriber puts
+    the undecorated publisher back": the publisher decorators stayed applied ([residue]) and acted a
+    second time after the retry.  The code under test is [step] = [step_gen false]. *)
+Definition step_gen (pinned : bool) (st : rstate) (o : op) : rstate :=
   match o with
   | OAddHandler h =>
       match find_handler (h_name h) st with
@@ -122,12 +125,13 @@ Definition step (st : rstate) (o : op) : rstate :=
           match first_failing st (rev (pubdecs st)) with
           | Some d => RS (handlers st) (mws st) (pubdecs st) (subdecs st) (spend (pfails st) d) (residue st)
           | None =>
-              (* its publisher IS decorated now; decorateHandlerSubscriber: constructors in the order added *)
+              (* its publisher is decorated now; decorateHandlerSubscriber: constructors in the order added;
+                 on an error the undecorated publisher is put back (repaired) *)
               match first_failing st (subdecs st) with
               | Some d =>
                   let n0 := h_name (hs_cfg hs0) in
                   RS (handlers st) (mws st) (pubdecs st) (subdecs st) (spend (pfails st) d)
-                     ((n0, pubdecs st ++ residue_of st n0) :: residue st)
+                     (if pinned then (n0, pubdecs st ++ residue_of st n0) :: residue st else residue st)
               | None =>
                   (* no constructor fails any more: every waiting handler is decorated, subscribed and started *)
                   RS (map (start_one st) (handlers st)) (mws st) (pubdecs st) (subdecs st) (pfails st) []
@@ -144,7 +148,9 @@ Definition step (st : rstate) (o : op) : rstate :=
       end
   | ODeliver _ => st
   end.
+Definition step := step_gen false.
 Definition exec (st : rstate) (ops : list op) : rstate := fold_left step ops st.
+Definition exec_pinned (st : rstate) (ops : list op) : rstate := fold_left (step_gen true) ops st.
 
 (** ** observable events of one message copy in one handler, in order *)
 Definition omsg := (M * ctxv * uctx)%type.
